@@ -2035,6 +2035,9 @@ class StateEngine(object):
                         error_message = json.dumps(result)
                     else:
                         error_message = result.get("errorMessage", "")
+                        if not isinstance(error_message, str):
+                            # The Cause is text, a processor might send any JSON.
+                            error_message = json.dumps(error_message)
 
                     if error_type == "States.Timeout":
                         if timeout == t1:  # Timeout due to Execution Timeout.
